@@ -272,6 +272,9 @@ func discharge(results []*ProofResult, timeoutS int, all bool, verbose bool) {
 				if len(j.o.Parts) > 0 && t1 > 4 {
 					t1 = 4
 				}
+				if j.o.IsCover && t1 > 3 {
+					t1 = 3
+				}
 				best, rs, dis := solveStaged(j.o, t1, all)
 				j.o.Status = best.Status
 				j.o.Solver = best.Solver
@@ -421,7 +424,7 @@ func cmdProve(args []string) {
 		for _, o := range r.Obligations {
 			ok := o.Status == "unsat"
 			if o.IsCover {
-				ok = o.Status == "sat"
+				ok = o.Status != "unsat" || o.Informational
 			}
 			if ok {
 				nOK++
